@@ -37,8 +37,8 @@ var (
 	curCase atomic.Value // string: the case being run (for the watchdog)
 	beat    atomic.Int64
 	curLine atomic.Value // string: its case line
-	curFile *os.File // the case being run, for the supervising parent (a Go stack overflow cannot be recovered)
-	rawMode bool     // stage "raw": sqlx.SortChanges alone, on the unsorted change list
+	curFile *os.File     // the case being run, for the supervising parent (a Go stack overflow cannot be recovered)
+	rawMode bool         // stage "raw": sqlx.SortChanges alone, on the unsorted change list
 )
 
 // supervise runs the generator in a child process. Unbounded recursion in the planner
@@ -86,6 +86,13 @@ func main() {
 		fmt.Fprintln(os.Stderr, "missing -out")
 		os.Exit(2)
 	}
+	if *mode == "gen" { // generator of coq/theories/gen/Gen_TidbPriority.v (props/C04.json: "gen")
+		if err := genTidbPriority(*outDir); err != nil {
+			fmt.Fprintln(os.Stderr, "gen:", err)
+			os.Exit(1)
+		}
+		return
+	}
 	if os.Getenv("VERIF_SORT_CHILD") == "" {
 		supervise(*outDir)
 		return
@@ -131,6 +138,7 @@ func main() {
 		rawMode = true
 		genRaw(w, *tier)
 	case "obj":
+		objMode = true
 		genObj(w, *tier)
 	case "sch":
 		replans = 3
@@ -138,6 +146,18 @@ func main() {
 	case "big":
 		symOff = 50
 		genLarge(w, *tier)
+	case "sqlite":
+		symOff = 50
+		sqliteMode = true
+		genSqlite(w, *tier)
+	case "tidb":
+		symOff = 50
+		tidbMode = true
+		if err := openTidb(); err != nil {
+			fmt.Fprintln(os.Stderr, "tidb:", err)
+			os.Exit(2)
+		}
+		genTidb(w, *tier)
 	default:
 		fmt.Fprintln(os.Stderr, "unknown mode")
 		os.Exit(2)
@@ -584,15 +604,27 @@ func runCase(w *out.W, id string, sc *scenario, tags ...string) {
 	var obs []string
 	nontrivial := false
 	hasObj := sc.hasObjects()
-	for _, ep := range []struct {
+	type entry struct {
 		name string
 		run  func() runRes
-	}{
+	}
+	eps := []entry{
 		{"sort", func() runRes { return runSort(sc) }},
 		{"mysql", func() runRes { return runPlanner(sc, mysql.DefaultPlan, "int") }},
 		{"pg", func() runRes { return runPlanner(sc, postgres.DefaultPlan, "integer") }},
-	} {
-		if (hasObj || sc.hasTypes()) && ep.name == "mysql" {
+	}
+	if tidbMode { // stage "tidb": the planner mysql.Open installs for a TiDB server, alone
+		eps = []entry{{"tidb", func() runRes { return runPlanner(sc, tidbPlan, "int") }}}
+	}
+	if sqliteMode { // stage "sqlite": sqlite.DefaultPlan, judged with SQLite's semantics
+		eps = []entry{{"sqlite", func() runRes {
+			r, off := runSqlite(sc)
+			sqliteFKOff = off
+			return r
+		}}}
+	}
+	for _, ep := range eps {
+		if (objMode || hasObj || sc.hasTypes()) && ep.name == "mysql" {
 			continue // the MySQL planner has no object (enum type) changes
 		}
 		r := ep.run()
@@ -609,6 +641,29 @@ func runCase(w *out.W, id string, sc *scenario, tags ...string) {
 			if want := sc.preLine(); strings.Join(r.top, ",") != want {
 				w.Violation(id, "schema-change-not-once", fmt.Sprintf("%s: the executed plan has the schema-level statements [%s], the change list has [%s]; case: %s", ep.name, strings.Join(r.top, ","), want, line))
 			}
+		} else if sqliteMode {
+			// the statements follow the change list for every length: exact order
+			fk := "on"
+			if sqliteFKOff {
+				fk = "off"
+				nontrivial = true
+			}
+			w.Count("fk:" + fk)
+			if hyp {
+				w.Count("hyp:WF+consistent")
+				w.Count("exact:sqlite-predicted-" + verdict) // C04_sqlite_safe predicts ok
+			} else {
+				w.Count("hyp:not-WF-or-inconsistent")
+			}
+			obs = append(obs, fmt.Sprintf("%s out=%s fk=%s replay=%s", ep.name, showOut(r.outp), fk, verdict))
+		} else if objMode {
+			// type part of the catalogue (judgeTypes, written independently of the Coq treplay): a type exists when
+			// it is used, is created once, is dropped only when unused
+			tv := "ok"
+			if len(judgeTypes(sc, r.outp)) > 0 {
+				tv = "fail"
+			}
+			obs = append(obs, fmt.Sprintf("%s out=%s replay=%s types=%s", ep.name, obsOut(sc, r.outp), verdict, tv))
 		} else {
 			obs = append(obs, fmt.Sprintf("%s out=%s replay=%s", ep.name, obsOut(sc, r.outp), verdict))
 		}
@@ -619,25 +674,51 @@ func runCase(w *out.W, id string, sc *scenario, tags ...string) {
 		for _, v := range r.more {
 			w.Violation(id, v.class, fmt.Sprintf("%s: %s; case: %s", ep.name, v.msg, line))
 		}
-		if hasObj || sc.hasTypes() {
-			// enum types: not in the Coq model (oracle-only stage "objects")
+		if objMode || hasObj || sc.hasTypes() {
+			// enum types (stage "objects"): the type obligations, evaluated on the Go plan
 			for _, v := range judgeTypes(sc, r.outp) {
 				w.Violation(id, v.class, fmt.Sprintf("%s: %s; plan %s; case: %s", ep.name, v.msg, showOut(r.outp), line))
 			}
 		}
 		for _, v := range viol {
 			class := v.class
-			if class == "fk-before-table" && cyc && isRepoint(sc, v) {
+			if tidbMode && class == "fk-before-table" && isRepoint(sc, v) {
+				// TiDB planner: priority(ModifyForeignKey) = 3 < priority(AddTable) = 4 puts the re-pointed key in
+				// front of the CREATE TABLE of its new parent (finding C04-tidb-modfk-priority); its own class
+				class = "tidb-modfk-before-table"
+			} else if class == "fk-before-table" && cyc && isRepoint(sc, v) {
 				// the FK is the To side of a ModifyForeignKey and the change set has a cycle
 				// (former finding C04-modfk-detached, repaired in dependsOn; kept as its own class)
 				class = "modfk-before-table-detached"
 			}
 			w.Violation(id, class, fmt.Sprintf("%s: %s; plan %s; case: %s", ep.name, v.msg, showOut(r.outp), line))
 		}
+		if ep.name == "tidb" {
+			// C04_tidb_safe_exact: the TiDB plan fails iff a ModifyForeignKey
+			// is re-pointed to a table the change set creates
+			if hyp {
+				w.Count("hyp:WF+consistent")
+				predicted := "ok"
+				if tidbRepointsToCreated(sc) {
+					predicted = "fail"
+				}
+				if predicted == verdict {
+					w.Count("exact:tidb-predicted-" + verdict)
+				} else {
+					w.Count("exact:tidb-MISPREDICTED-" + verdict)
+				}
+			} else {
+				w.Count("hyp:not-WF-or-inconsistent")
+			}
+			if showOut(r.outp) != showOut(in) {
+				nontrivial = true
+			}
+			w.Count("replay:" + verdict)
+		}
 		if ep.name == "sort" {
 			// the hypotheses of the theorems on this case, and C04_safe_exact's prediction
 			if hyp && (hasObj || sc.hasTypes()) {
-				w.Count("hyp:WF+consistent-with-enum-objects(outside the model)")
+				w.Count("hyp:WF+consistent-with-enum-objects")
 			} else if hyp {
 				w.Count("hyp:WF+consistent")
 				predicted := "ok" // theorem C04_safe
@@ -980,7 +1061,7 @@ func objScenario(r *rng.R) *scenario {
 				case erole[k] == eC || (erole[k] == eK && r.Bool()):
 					c.tcs = append(c.tcs, tch{kind: 'c', k: r.Intn(2), e: 2*k + 1})
 				case erole[k] != eC:
-					c.tcs = append(c.tcs, tch{kind: 'c', k: 2, e: 2 * k})
+					c.tcs = append(c.tcs, tch{kind: 'c', k: 2 + r.Intn(2), e: 2 * k}) // DropColumn, or ModifyColumn away from the enum
 					sc.cat.uses = append(sc.cat.uses, [2]int{c.t.name, k})
 				}
 			}
@@ -1013,7 +1094,7 @@ func objScenario(r *rng.R) *scenario {
 
 // genObj: DetachCycles + SortChanges and postgres.DefaultPlan on change sets with enum objects.
 func genObj(w *out.W, tier string) {
-	w.Rule = "seeded random change sets with enum objects: 1..4 tables (created/dropped/modified, sparse FK graph incl. cycles) x 1..3 enum types (created/dropped/kept) used by columns (inline in CREATE TABLE, AddColumn, ModifyColumn, DropColumn), all changes in random order; sqlx.DetachCycles+SortChanges and postgres.DefaultPlan (the MySQL planner has no object changes). ORACLE-ONLY stage: enum types are not in the Coq model, nothing is compared. Oracle: the table/foreign-key catalogue as in the other stages, plus: a type exists when a table or column uses it, is created once, is dropped only when unused. Non-trivial = the planned order differs from the input order"
+	w.Rule = "seeded random change sets with enum objects: 1..4 tables (created/dropped/modified, sparse FK graph incl. cycles) x 1..3 enum types (created/dropped/kept) used by columns (inline in CREATE TABLE, AddColumn, ModifyColumn, DropColumn), all changes in random order; sqlx.DetachCycles+SortChanges and postgres.DefaultPlan (the MySQL planner has no object changes). (inline in CREATE TABLE, AddColumn, ModifyColumn to and away from the type, DropColumn). Tied to the extended model SortObjModel.v (xplan, xpg_sources, replay of the table projection, treplay): exact plan order incl. the enum types of each created/dropped table, replay verdict, types verdict. Oracle: the table/foreign-key catalogue as in the other stages, plus: a type exists when a table or column uses it, is created once, is dropped only when unused. Non-trivial = the planned order differs from the input order"
 	r := rng.FromEnv(0xC04C)
 	count := 6000
 	if tier == "thorough" {
@@ -1261,11 +1342,16 @@ func schTags(sc *scenario, tags ...string) []string {
 // FK chains, sometimes a cycle; create-all / drop-all / modify-all / mixed; the change list in a random
 // order, or children first (child, unrelated ..., parent), or with the drop-only ModifyTables moved to the end.
 func genLarge(w *out.W, tier string) {
-	w.Rule = "seeded random change sets of 13..40 changes (Go's sort.Slice is an insertion sort up to 12 elements and pdqsort, not stable, beyond): 60..85% of the tables unrelated (no foreign keys), 1..4 FK chains of 2..6 tables, 1 case in 4 with a planted cycle, 1 in 5 with a few extra edges; roles create-all / drop-all / modify-all (4 readings; a ModifyTable's T.ForeignKeys never lists the keys it adds) / mixed incl. kept tables; order: random / children before parents with unrelated tables between them / drop-only ModifyTables last. Compared with the model: the multiset of planned changes + replay verdict (the order of equal sort keys is pdqsort's); the order is judged by the oracle (reference catalogue, same-value replanning) on the Go plans. Non-trivial = the planned order differs from the input order"
+	if !tidbMode {
+		w.Rule = "seeded random change sets of 13..40 changes (Go's sort.Slice is an insertion sort up to 12 elements and pdqsort, not stable, beyond): 60..85% of the tables unrelated (no foreign keys), 1..4 FK chains of 2..6 tables, 1 case in 4 with a planted cycle, 1 in 5 with a few extra edges; roles create-all / drop-all / modify-all (4 readings; a ModifyTable's T.ForeignKeys never lists the keys it adds) / mixed incl. kept tables; order: random / children before parents with unrelated tables between them / drop-only ModifyTables last. Compared with the model: the multiset of planned changes + replay verdict (the order of equal sort keys is pdqsort's); the order is judged by the oracle (reference catalogue, same-value replanning) on the Go plans. Non-trivial = the planned order differs from the input order"
+	}
 	r := rng.FromEnv(0xC04B)
 	count := 2500
 	if tier == "thorough" {
 		count = 60000
+	}
+	if tidbMode {
+		count = count / 12
 	}
 	for k := 0; k < count; k++ {
 		n := 13 + r.Intn(28)
